@@ -89,6 +89,12 @@ func (s *script) ServeHTTP(w http.ResponseWriter, r *http.Request) {
 	case "err500":
 		w.WriteHeader(http.StatusInternalServerError)
 		fmt.Fprint(w, "driver failed")
+	case "err500nosuchfile":
+		w.WriteHeader(http.StatusInternalServerError)
+		fmt.Fprintf(w, "open /var/lib/docker/containers/%s/config.v2.json: no such file or directory", cid)
+	case "err500notfoundtext":
+		w.WriteHeader(http.StatusInternalServerError)
+		fmt.Fprintf(w, "No such container: %s (layer store not found, container is not running)", cid)
 	case "badjson":
 		w.Header().Set("Content-Type", "application/json")
 		fmt.Fprint(w, `{"Id": 7, "State": "x"`)
@@ -125,6 +131,8 @@ func (c *criServer) PodSandboxStatus(ctx context.Context, req *criapi.PodSandbox
 		return nil, status.Errorf(codes.Unavailable, "runtime is restarting")
 	case "unknown":
 		return nil, fmt.Errorf("plain error")
+	case "unknown_nosuch":
+		return nil, fmt.Errorf("dial tcp: lookup runtime.local: no such host; sandbox not found in cache")
 	case "nil":
 		return &criapi.PodSandboxStatusResponse{}, nil
 	case "ready":
